@@ -119,7 +119,7 @@ func Run(o Options) int {
 	if !o.KeepFiles {
 		defer os.RemoveAll(tmp)
 	}
-	sopt := solve.Options{TmpDir: tmp, BatchMs: 2000, SingleMs: 10000, KeepFiles: o.KeepFiles}
+	sopt := solve.Options{TmpDir: tmp, BatchMs: 2000, SingleMs: 20000, KeepFiles: o.KeepFiles}
 	if o.Tier == "thorough" {
 		sopt.BatchMs = 10000
 		sopt.SingleMs = 60000
@@ -190,6 +190,7 @@ func Run(o Options) int {
 	}
 
 	var problems []string
+	var unitLost []lostUnit
 	problems = append(problems, relevantProblems(w, o.Prop)...)
 	groups := map[string]*group{}
 	var order []string
@@ -204,6 +205,13 @@ func Run(o Options) int {
 		}
 		functions = append(functions, u.Name)
 		if uo.res.Err != "" {
+			if lost := pinnedNamesOf(o, u.Name); len(lost) > 0 && !o.Pin {
+				// the unit was verified on the pinned (unchanged) tree and can no longer be processed: every obligation it
+				// discharged there is now open. That is reported as a violation of the property (without input), with the
+				// engine's reason; a unit that never verified stays an engine problem.
+				unitLost = append(unitLost, lostUnit{u.Name, uo.res.Err, lost})
+				continue
+			}
 			problems = append(problems, fmt.Sprintf("%s: %s", u.Name, uo.res.Err))
 			continue
 		}
@@ -305,6 +313,13 @@ func Run(o Options) int {
 		}
 		violations = append(violations, line)
 	}
+	for _, lu := range unitLost {
+		g := &group{Name: lu.unit + "/unverifiable", Unit: lu.unit, Kind: "unverifiable", Text: "the function can no longer be brought under its contract: " + lu.reason,
+			Detail: "engine: " + lu.reason + "; obligations discharged on the pinned tree and now open: " + strings.Join(lu.names, ", ")}
+		path := writeReplay(o, g, "")
+		violations = append(violations, fmt.Sprintf("VIOLATION property=%s replay=%s obligation=%s no-failing-input-found", o.Prop, path, strings.ReplaceAll(g.Name, " ", "_")))
+		obligations += len(lu.names)
+	}
 	var knownEv []map[string]any
 	for _, g := range knownGroups {
 		base := strings.TrimSuffix(g.Name, "|known")
@@ -341,8 +356,25 @@ func Run(o Options) int {
 	}
 	// pinned counts
 	if !o.Sweep && o.UnitFilter == "" {
-		if msg := checkPinned(o, obligations, functions); msg != "" {
-			problems = append(problems, msg)
+		var names []string
+		for _, name := range order {
+			if g := groups[name]; !g.Known && g.Result == "discharged" {
+				names = append(names, name)
+			}
+		}
+		if msg := checkPinned(o, obligations, functions, names); msg != "" {
+			if rest, ok := strings.CutPrefix(msg, "functions under contract disappeared: "); ok && !o.Pin {
+				// a function (or closure) that verified on the pinned tree no longer exists: what it discharged is open
+				for _, fn := range strings.Split(rest, ", ") {
+					lost := pinnedNamesOf(o, fn)
+					g := &group{Name: fn + "/missing", Unit: fn, Kind: "missing", Text: "the function under contract no longer exists in the tree",
+						Detail: "obligations discharged on the pinned tree and now open: " + strings.Join(lost, ", ") + "; contract file problems: " + strings.Join(w.Problems, " | ")}
+					path := writeReplay(o, g, "")
+					violations = append(violations, fmt.Sprintf("VIOLATION property=%s replay=%s obligation=%s no-failing-input-found", o.Prop, path, strings.ReplaceAll(g.Name, " ", "_")))
+				}
+			} else {
+				problems = append(problems, msg)
+			}
 		}
 	}
 	if obligations == 0 && len(problems) == 0 {
@@ -434,14 +466,44 @@ func writeReplay(o Options, g *group, kind string) string {
 	return path
 }
 
-func checkPinned(o Options, obligations int, functions []string) string {
+type lostUnit struct {
+	unit, reason string
+	names        []string
+}
+
+// pinnedNamesOf lists the obligations of a unit that were discharged when the property was last pinned.
+func pinnedNamesOf(o Options, unit string) []string {
+	b, err := os.ReadFile(o.Expected)
+	if err != nil {
+		return nil
+	}
+	pinned := map[string]map[string]any{}
+	if json.Unmarshal(b, &pinned) != nil {
+		return nil
+	}
+	p, ok := pinned[o.Prop]
+	if !ok {
+		return nil
+	}
+	var out []string
+	if nl, ok := p["names"].([]any); ok {
+		for _, n := range nl {
+			if s, ok := n.(string); ok && strings.HasPrefix(s, unit+"/") {
+				out = append(out, s)
+			}
+		}
+	}
+	return out
+}
+
+func checkPinned(o Options, obligations int, functions []string, names []string) string {
 	b, err := os.ReadFile(o.Expected)
 	pinned := map[string]map[string]any{}
 	if err == nil {
 		json.Unmarshal(b, &pinned)
 	}
 	if o.Pin {
-		pinned[o.Prop] = map[string]any{"obligations": obligations, "functions": functions}
+		pinned[o.Prop] = map[string]any{"obligations": obligations, "functions": functions, "names": names}
 		nb, _ := json.MarshalIndent(pinned, "", " ")
 		os.WriteFile(o.Expected, nb, 0o644)
 		return ""
